@@ -107,10 +107,9 @@ def spec_Q(d, T, q):
     return Q
 
 
-# A singular PSD covariance is inside the property's quantifier, but the defect below lives in floating point (the
-# real-arithmetic model has D >= 0): reported as a candidate finding in the evidence and to the coordinator; set to
-# True once /repo clamps the pivots (or a `known:` entry with key linear-sqrt-singular-R exists).
-SINGULAR_R_IS_VIOLATION = False
+# A singular PSD covariance is inside the property's quantifier.  /repo clamps rounding-negative LDL^T pivots since
+# cb9beab (the model's ldltSqrt does the same): NaN samples for a singular R are a violation, key linear-sqrt-singular-R.
+SINGULAR_R_IS_VIOLATION = True
 CANDIDATES = {}
 
 
@@ -1678,14 +1677,25 @@ def gen_ltimove(ctx, g):
 
 
 def post_ltimove(c, stats):
-    what = "LTIStateModel %dx%d %s" % (c.meta["n"], c.meta["n"], "move-constructed" if c.meta["mode"] == 0 else "move-assigned")
+    what = "LTIStateModel %dx%d with an exogenous model attached and skip(\"state\") on, %s" % (c.meta["n"], c.meta["n"], "move-constructed" if c.meta["mode"] == 0 else "move-assigned")
     t = c.hout.split()
     if not t or t[0] != "ok":
         return crash_problem(c, "lti-move", what)
     if t[1] != "stored":
         c.probs.append(("prop", "lti-move", "%s: the target does not hold the source's F and Q" % what))
     if t[2] != "1" or t[3] != "1":
-        c.notes.append("a moved LTIStateModel drops the attached exogenous model / skip flag (have_exogenous=%s, skipping=%s; the source had both): outside C16's text" % (t[2], t[3]))
+        c.probs.append(("prop", "lti-move", "%s: the target has have_exogenous_model()=%s is_skipping()=%s; the source had both "
+                                            "(the handed-over object does not move states as the configured original)" % (what, t[2], t[3])))
+    c.st = {"flags": (t[2], t[3])}
+    c.dline = c.line
+
+
+def cmp_ltimove(c, stats):
+    if not c.st:
+        return
+    t = c.dout.split()
+    if t[0] != "ok" or int(t[1]) != c.meta["n"] or (t[2], t[3]) != c.st["flags"]:
+        c.probs.append(("corr", "lti-move", "model %s, implementation flags %s" % (c.dout, c.st["flags"])))
 
 
 def cmp_none(c, stats):
@@ -1787,7 +1797,7 @@ SECTIONS = [
     ("grid", gen_grid, post_grid, cmp_grid, ("grid",)),
     ("plumb", gen_plumb, post_plumb, cmp_plumb, ("wna_plumb",)),
     ("move", gen_move, post_move, cmp_move, ("wna_move",)),
-    ("lti_move", gen_ltimove, post_ltimove, cmp_none, ("lti_move",)),
+    ("lti_move", gen_ltimove, post_ltimove, cmp_ltimove, ("lti_move",)),
     ("motion_x", gen_motion_x, post_motion_x, cmp_motion_x, ("wna_motion_x",)),
 ]
 BY_OP = {op: s for s in SECTIONS for op in s[4]}
@@ -1826,6 +1836,13 @@ def corpus_cases():
                 batches.append({"N": N, "prev": prev, "cur": cur, "style": "corpus"})
             out.append(Case(op, ln, {"d": d, "T": unhex(t[2]), "q": unhex(t[3]), "batches": batches, "style": "corpus", "cls": "corpus"}))
     return out
+
+
+def build_opt_harness():
+    """plain optimised build (no sanitizer, NDEBUG) of the library and of harness/h_models.cpp under $BFL_BUILD_DIR/opt;
+    call this from tools/setup.sh to prebuild:  python3 -c "import checks.c16 as c; c.build_opt_harness()"  (cwd = verif tree)"""
+    vlib.LIB_FLAGS.setdefault("opt", "-O2 -g0 -DNDEBUG -DBFL_VERIF")
+    return vlib.build_harness("h_models", kind="opt")
 
 
 def replay_case(path):
@@ -1895,8 +1912,7 @@ def run(ctx):
     opt_n = 0
     if not ctx.replay:
         import copy
-        vlib.LIB_FLAGS.setdefault("opt", "-O2 -g0 -DNDEBUG -DBFL_VERIF")
-        obin = vlib.build_harness("h_models", kind="opt")
+        obin = build_opt_harness()
         sub = [c for c in cases if not c.probs and c.op not in ("lti_state", "lti_meas", "linmodel") and not (c.hout or "").startswith("crash")]
         if ctx.quick():
             sub = sub[::2]
